@@ -1452,7 +1452,16 @@ impl<R: Read> Base64Decoder<R> {
         }
         while self.buffer_size + 3 <= self.buffer.len() {
             let mut input = [0u8; 4];
-            let size = self.read.read(&mut input)?;
+            let mut size = 0;
+            while size < input.len() {
+                // reader is allowed to return less than requested
+                match self.read.read(&mut input[size..]) {
+                    Ok(0) => break,
+                    Ok(read) => size += read,
+                    Err(error) if error.kind() == std::io::ErrorKind::Interrupted => continue,
+                    Err(error) => return Err(error),
+                }
+            }
             if size == 0 {
                 break;
             } else if size != 4 {
